@@ -158,7 +158,9 @@ theorem C11_tc_pack_len (s : TcS) (h : TcInv s) (b : Bytes) (s' : TcS) (hp : s.p
     rw [this, beNat_beBytes 2 _ (by simpa using hlt)]
     omega
 
-/-- **pack is repeatable**: packing the post-state gives the same octets and the same post-state;
+/-- pack is repeatable IN THE MODEL, by construction of a functional model (bookkeeping lemma: it does
+    not carry the property's clause "packing twice yields identical octets and does not change
+    equality", which only the tie checks — on the real objects, caches included): packing the post-state gives the same octets and the same post-state;
     pre- and post-state differ in the CRC cache only; they are `==` in both directions, and every
     equality verdict against any other object is the same before and after -/
 theorem C11_tc_pack_idem (s : TcS) (b : Bytes) (s' : TcS) (hp : s.pack = .ok (b, s')) :
@@ -499,7 +501,9 @@ theorem C11_nak_pack_len (k : Nak) (h : NakInv k) (b : Bytes) (k' : Nak) (hp : n
   rw [lenfield_val _ _ hle hfield]
   omega
 
-/-- **pack is repeatable**: the PDU carries no cache — the post-state is the object itself, so a
+/-- pack is repeatable IN THE MODEL, by construction of a functional model (bookkeeping lemma: it does
+    not carry the property's clause "packing twice yields identical octets and does not change
+    equality", which only the tie checks — on the real objects, caches included): the PDU carries no cache — the post-state is the object itself, so a
     second `pack` gives the same octets and no equality verdict can change; it is `==` to itself -/
 theorem C11_nak_pack_idem (k : Nak) (b : Bytes) (k' : Nak) (hp : nakPack k = .ok (b, k')) :
     k' = k ∧ nakPack k' = .ok (b, k') ∧ k.beq k' = true ∧ k'.beq k = true := by
@@ -998,7 +1002,9 @@ theorem C11_frame_pack_len (ft : FrameType) (s : FrameS) (h : FrameInv ft s) :
     simp only [C17.LenSet, hh] at hset
     omega
 
-/-- **pack is repeatable**: the frame carries no cache that `pack` fills; the post-state is the
+/-- pack is repeatable IN THE MODEL, by construction of a functional model (bookkeeping lemma: it does
+    not carry the property's clause "packing twice yields identical octets and does not change
+    equality", which only the tie checks — on the real objects, caches included): the frame carries no cache that `pack` fills; the post-state is the
     object itself -/
 theorem C11_frame_pack_idem (s : FrameS) (b : Bytes) (s' : FrameS) (hp : framePack s = .ok (b, s')) :
     s' = s ∧ framePack s' = .ok (b, s') := by
@@ -1161,7 +1167,9 @@ theorem C11_eof_pack_len (k : Eof) (h : EofInv k) (b : Bytes) (k' : Eof) (hp : e
   rw [lenfield_val _ _ hle hfield]
   omega
 
-/-- **pack is repeatable**: no cache — the post-state is the object itself -/
+/-- pack is repeatable IN THE MODEL, by construction of a functional model (bookkeeping lemma: it does
+    not carry the property's clause "packing twice yields identical octets and does not change
+    equality", which only the tie checks — on the real objects, caches included): no cache — the post-state is the object itself -/
 theorem C11_eof_pack_idem (k : Eof) (b : Bytes) (k' : Eof) (hp : eofPack k = .ok (b, k')) :
     k' = k ∧ eofPack k' = .ok (b, k') := by
   have hk : k' = k := by
@@ -1347,7 +1355,9 @@ theorem C11_fin_pack_len (s : FinS) (h : FinInv s) (b : Bytes) (s' : FinS) (hp :
     rw [lenfield_val _ _ hle hfield]
     omega
 
-/-- **pack is repeatable**: packing the post-state gives the same octets and the same post-state;
+/-- pack is repeatable IN THE MODEL, by construction of a functional model (bookkeeping lemma: it does
+    not carry the property's clause "packing twice yields identical octets and does not change
+    equality", which only the tie checks — on the real objects, caches included): packing the post-state gives the same octets and the same post-state;
     pre- and post-state differ in the filestore-response TLV caches only, which `==` never looks
     at: every equality verdict against any other object is the same before and after -/
 theorem C11_fin_pack_idem (s : FinS) (b : Bytes) (s' : FinS) (hp : s.pack = .ok (b, s')) :
